@@ -241,12 +241,13 @@ CLAIMED = {
              "after text that ends outside quotes at a word boundary / after an open double or single quote is parsed back by "
              "complete_path to the same start offset and the same path (extract_word walks back over the escaped word, "
              "find_unclosed_quote is not confused by escaped quotes); candidates are exactly the directory entries whose "
-             "names start with the partial name, so a file offered once is offered again. PARTIAL: the longest-common-prefix "
-             "clause (byte-wise prefix backed off to a character boundary) is decided by the oracle (exact character-level "
-             "LCP) and the model correspondence only, no theorem yet.",
+             "names start with the partial name, so a file offered once is offered again; the longest common prefix computed on "
+             "bytes of adjacent candidates and backed off to a character boundary is, for every list of Rust strings, exactly "
+             "the greatest common prefix taken character by character (a prefix of every candidate, every common prefix a "
+             "prefix of it; None only without candidates or without a common first character), and its final slice never fails.",
         note=COMMON_NOTE + "The directory tree is a parameter of the model; std::fs/read_dir, home-directory expansion and "
              "absolute paths are not modelled.",
-        technique="Coq proof by induction over the escaped word (backward scan / quote scanner invariants) + differential check on real temporary directories"),
+        technique="Coq proof by induction over the escaped word (backward scan / quote scanner invariants); loop invariant of the byte-wise prefix loop + prefix-code property of UTF-8 for the longest common prefix; differential check on real temporary directories"),
     "C18": dict(
         text="Theorems, for every segmentation function: the byte arithmetic of apply_backspace_direct never panics and equals "
              "the stack semantics (backspace removes the cluster before it) for clusters of any byte length; the result is a "
